@@ -179,7 +179,13 @@ class Exec:
         elif op == "ADD_SUB":
             h = self.handles[st["c"]]
             child = self.handles[st["child"]]
-            ret = h.obj.add(child.obj)
+            if st.get("via") == "structure":
+                # nesting that enters below the DeclarativeCircuit wrapper: a copy of the child's structure is added
+                # to the circuit's structure directly
+                ret = observe.struct_of(child).copy()
+                observe.struct_of(h).add(ret)
+            else:
+                ret = h.obj.add(child.obj)
             self._register_entry(h, ret)
             link = ret.relation_link
             ref = link.reference_node
